@@ -5,6 +5,7 @@ package internal
 import (
 	"errors"
 	"io"
+	"net/http"
 
 	"connectrpc.com/connect"
 	"connectrpc.com/conformance/internal/compression"
@@ -275,5 +276,39 @@ func H17e_q() {
 			}
 		}
 		vAssert(same, "the written bytes are the given data under the given compression")
+	}
+}
+
+// ---- H17t: trailer entries whose names differ only in letter case ----
+//
+// net/http sends the values of one "Trailer:"-prefixed key in order, but orders (HTTP/1.1) or overwrites (HTTP/2)
+// distinct keys: entries naming the same trailer in different case must therefore end up under one key, as header
+// entries do (Header.Add canonicalises; the prefixed key is not canonicalised by it because of the colon).
+func H17t_q() {
+	names := [2]string{"x-foo", "X-Foo"}
+	n := vInt("entries", 1, 3)
+	var want [3]string
+	src := make([]*conformancev1.Header, 0, 3)
+	for i := 0; i < 3; i++ {
+		if i < n {
+			want[i] = string([]byte{byte('a' + i)})
+			src = append(src, &conformancev1.Header{Name: names[vIntAt("name", i, 3, 0, 1)], Value: []string{want[i]}})
+		}
+	}
+	asTrailers := vBool("trailers")
+	dest := http.Header{}
+	key := "X-Foo"
+	if asTrailers {
+		AddTrailers(src, dest)
+		key = http.TrailerPrefix + "X-Foo"
+	} else {
+		AddHeaders(src, dest)
+	}
+	got := dest[key]
+	vAssert(len(dest) == 1 && len(got) == n, "all entries of one name (in any letter case) end up under one key")
+	for i := 0; i < 3; i++ {
+		if i < n && i < len(got) {
+			vAssert(got[i] == want[i], "with their values in the given order")
+		}
 	}
 }
